@@ -209,7 +209,7 @@ def run(c) -> CaseResult:
 
 CHECK = Check(
     id="C19",
-    parts=[Part("prune", run, strategy=cases, budget={"quick": 400, "thorough": 4000})],
+    parts=[Part("prune", run, strategy=cases, budget={"quick": 400, "thorough": 30000})],
     rule=("Hypothesis-generated tracked graphs (modules as C18: cat / stack / rotate-half list consumers, keyword tensor arguments, integer "
           "index tensors, views / reshapes / negations / *1.0, multi-output), each pruned five ways: non-float, same-scale at rtol 2^-16, 2^-8, "
           "2^-2, selected targets (random subset of the targets present), plus one chained call (a copying helper applied to the retained result of the other). Oracle: representative-map model computed from the input graph "
